@@ -439,19 +439,25 @@ func runC15(c *ev.Ctx) {
 	} else {
 		lens = append(lens, 125000)
 	}
-	fams := []string{"slight", "uniform", "biased", "markov", "zeros", "ones", "alt", "byteperiodic", "sparse", "lfsr"}
+	fams := []string{"slight", "uniform", "biased", "markov", "zeros", "ones", "alt", "byteperiodic", "sparse", "lfsr", "longruns"}
 	var cases []epCase
 	for _, nb := range lens {
 		for fi, f := range fams {
 			reps := 2
-			if nb >= 125000 {
+			if f == "longruns" {
+				reps = 6
+			} else if nb >= 125000 {
 				reps = 1
-				if fi > 3 && nb > 125001 {
+				if fi > 3 && nb > 125001 && f != "longruns" {
 					continue
 				}
 			}
 			for r := 0; r < reps; r++ {
-				cases = append(cases, epCase{gen.Seq{Fam: f, N: nb * 8, Seed: gen.Mix(seed, 15, uint64(nb), uint64(r), uint64(fi))}})
+				sq := gen.Seq{Fam: f, N: nb * 8, Seed: gen.Mix(seed, 15, uint64(nb), uint64(r), uint64(fi))}
+				if f == "longruns" {
+					sq.A = 3 + r
+				}
+				cases = append(cases, epCase{sq})
 			}
 		}
 	}
